@@ -24,6 +24,7 @@ TAKES_START = FINETUNE + ('community_louvain',)
 DET_GAIN = LOUVAIN + FINETUNE + ('community_louvain',)
 ZERO = ('modularity_und', 'modularity_dir', 'modularity_und_sign')
 BOOL_OK = ('community_louvain', 'modularity_finetune_und', 'modularity_finetune_dir', 'modularity_und', 'modularity_dir')
+UNSIGNED_OK = ('community_louvain', 'modularity_louvain_und', 'modularity_finetune_und', 'modularity_finetune_dir', 'modularity_und', 'modularity_dir')
 CROSS = {'und': ('modularity_louvain_und', 'modularity_finetune_und', 'community_louvain'), 'dir': ('community_louvain', 'modularity_finetune_dir'),
          'sign': ('modularity_louvain_und_sign', 'modularity_finetune_und_sign')}
 QTOL = 1e-8
@@ -447,6 +448,9 @@ def gen_case(sub, routines, scn_id, nmax=12):
         W = W.astype(rnd.choice((np.uint8, np.int8)))
         narrow8 = True
         weighted = 'float'  # no further container games
+    if weighted == 'int' and kind != 'sign' and not narrow8 and routine in UNSIGNED_OK and rnd.random() < 0.05:
+        W = W.astype(rnd.choice((np.uint16, np.uint32)))  # unsigned counts (only for the routines that take them on the unchanged tree)
+        weighted = 'float'
     r = rnd.random()
     meta_f32 = False
     if weighted != 'float' and r < 0.12:
@@ -459,6 +463,8 @@ def gen_case(sub, routines, scn_id, nmax=12):
         W = W.astype(np.float32)
         meta_f32 = True
     if W.dtype == bool and cross is not None and cross not in BOOL_OK:
+        cross = 'community_louvain'
+    if W.dtype.kind == 'u' and cross is not None and cross not in UNSIGNED_OK:
         cross = 'community_louvain'
     if start is not None and rnd.random() < 0.2:
         start = start.astype(float)  # labels held in a float vector, as MATLAB users pass them
